@@ -312,6 +312,10 @@ CORPUS = [
      ["up", 2, b"URI:CHK:aaa".hex()], ["cf", "/v/a", True, 0], ["cf", "/v/b", True, 0], ["dump"],
      ["cd", [["a", b"URI:CHK:aaa".hex()]], 0], ["dc", 0, b"URI:DIR2-CHK:d1".hex()], ["set", "/v/b", [20, 8, 9]],
      ["cf", "/v/b", True, 0], ["up", 5, b"URI:CHK:bbb".hex()], ["cf", "/v/b", True, 0], ["cf", "/v/a", True, 0], ["dump"]],
+    # two paths that differ only in letter case are different files, each with its own record   [seeded change C42-d]
+    [["set", "/v/Makefile", [10, 100, 100]], ["set", "/v/makefile", [10, 100, 100]], ["cf", "/v/Makefile", True, 0],
+     ["up", 0, b"URI:CHK:upper".hex()], ["cf", "/v/makefile", True, 0], ["up", 1, b"URI:CHK:lower".hex()],
+     ["cf", "/v/Makefile", True, 0], ["cf", "/v/makefile", True, 0], ["dump"]],
     # timestamps one second off, same size: not "the same" (no tolerance window)   [seeded change C42-a]
     [["set", "/v/a", [10, 100, 100]], ["cf", "/v/a", True, 0], ["up", 0, b"URI:CHK:aaa".hex()],
      ["write", "/v/a", [10, 101, 100], "modify-same-size"], ["cf", "/v/a", True, 0], ["up", 1, b"URI:CHK:aab".hex()],
